@@ -548,7 +548,9 @@ def execLine (s : Sess) (line : String) : StepOut :=
       ({ s with dumps := s.dumps.push d },
        s!"d{s.dumps.size} next={d.next} avail={d.available} ents={csv (d.ents.toList.map showEnt)} alive={showIds d.alive}"))
   else if cmd == "load" then
-    match runP pNat args with
+    -- `load k [json]`: with `json` the implementation passes the dump through encoding/json
+    -- first, which must be the identity on dumps
+    match runP pNat (if args.getLast? == some "json" then args.dropLast else args) with
     | some k => (match s.dumps[k]? with
       | some d => finish s (w.load d) (fun s _ => (s, ""))
       | none => badRef s)
